@@ -217,6 +217,7 @@ func TestGrid(t *testing.T) {
 		var prevL int
 		tr.Walk(func(prefix uint64, l int, _ bool, _ int64) {
 			w, f := checkWord(h, l, prefix)
+			checker.Remember(Case{H: h, L: l, Prefix: vk.U64(prefix)})
 			evals++
 			if l >= 1 && prefix != 0 {
 				nontriv++
